@@ -50,7 +50,7 @@ impl Property for C15 {
         proptest::collection::vec(any::<u16>(), 0..(max_ops * 8 + 8))
             .prop_map(move |genes| {
                 let mut g = Genes::new(genes);
-                let cfg = HistCfg { max_ops, safe_strings: false, w_struct: 5, w_attr: 4, w_chardata: 7, w_create: 5, huge_offsets: false };
+                let cfg = HistCfg { max_ops, safe_strings: false, w_struct: 5, w_attr: 4, w_chardata: 7, w_create: 5, huge_offsets: false, ..Default::default() };
                 hist::gen_history(&mut g, &cfg)
             })
             .boxed()
@@ -68,6 +68,12 @@ impl Property for C15 {
         let ops = case["ops"].as_array().cloned().unwrap_or_default();
         let mut nontrivial = false;
         let mut last_print: Vec<String> = pool.docs.iter().map(|d| d.to_string()).collect();
+        let mut node_print: std::collections::BTreeMap<usize, String> = std::collections::BTreeMap::new();
+        for (i, n) in pool.nodes.iter().enumerate() {
+            if matches!(n, XmlNode::Text(_) | XmlNode::Comment(_) | XmlNode::CData(_) | XmlNode::PI(_)) {
+                node_print.insert(i, n.to_string());
+            }
+        }
         for (step, op) in ops.iter().enumerate() {
             let kind = op["op"].as_str().unwrap_or("").to_string();
             let rk = receiver_kind(&pool, op);
@@ -101,6 +107,39 @@ impl Property for C15 {
             obs.label(format!("ok:{}", kind));
             if sig {
                 obs.label("ok-with-significant-string");
+            }
+            // (1) every character-data / PI node of the pool, attached or not, must hold data that survives
+            //     printing and parsing on its own: detects an invalid stored value at the call that causes it
+            for (pi_, n) in pool.nodes.iter().enumerate() {
+                let kindn = hist::kind_name(n);
+                if !matches!(n, XmlNode::Text(_) | XmlNode::Comment(_) | XmlNode::CData(_) | XmlNode::PI(_)) {
+                    continue;
+                }
+                let printed = n.to_string();
+                if node_print.get(&pi_) == Some(&printed) {
+                    continue;
+                }
+                node_print.insert(pi_, printed.clone());
+                let wrapped = format!("<r>{}</r>", printed);
+                let want = canon::merge(&serde_json::json!({"k": "x", "kids": [canon::node_json(n, 0)]}));
+                let ok = match xml_dom::XmlDocument::from_raw(&wrapped) {
+                    Ok((rest, re)) if rest.is_empty() => {
+                        let got = canon::merge(&canon::doc_json(&re));
+                        got["kids"][0]["kids"] == want["kids"]
+                    }
+                    _ => false,
+                };
+                if !ok {
+                    let k: String = format!("c15.invalid-{}-stored.after-{}", kindn, kind);
+                    if skip_known("C15", &k) {
+                        if !obs.known_hits.contains(&k) {
+                            obs.known_hits.push(k);
+                        }
+                        obs.nontrivial = Some(nontrivial);
+                        return Verdict::Pass;
+                    }
+                    return Verdict::fail(k, format!("step {} {}: the {} node now prints as {:?}, which does not parse back to the data it reports", step, op, kindn, printed));
+                }
             }
             for (di, d) in pool.docs.iter().enumerate() {
                 // a document whose document element was removed or moved away is not expected to parse
